@@ -349,6 +349,15 @@ fn run_variants(cfg: &Config, ev: &mut Vec<Value>, rep: &mut Report) {
             same = false;
             rep.violation(&format!("{}: unhinted glyph {gid} with caller memory differs", cfg.name), json!({"kind": "hint-variant", "cfg": cfg.id}));
         }
+        // the other path style (HarfBuzz conventions for implied points and composite offsets), same buffer
+        let (mut h0, mut h1) = (Rec::new(), Rec::new());
+        let hb = skrifa::outline::pen::PathStyle::HarfBuzz;
+        let a = guarded(|| g.draw(DrawSettings::unhinted(Size::new(cfg.size), &loc).with_path_style(hb), &mut h0).map(|m| (m.advance_width, m.lsb)).map_err(|e| e.to_string()));
+        let b = guarded(|| g.draw(DrawSettings::unhinted(Size::new(cfg.size), &loc).with_path_style(hb).with_memory(Some(&mut ubuf[1..need_u + 1])), &mut h1).map(|m| (m.advance_width, m.lsb)).map_err(|e| e.to_string()));
+        if a != b || h0.cmds != h1.cmds {
+            same = false;
+            rep.violation(&format!("{}: unhinted glyph {gid} (HarfBuzz path style) with caller memory differs: {:?} vs {:?}", cfg.name, h0.cmds.iter().take(6).collect::<Vec<_>>(), h1.cmds.iter().take(6).collect::<Vec<_>>()), json!({"kind": "hint-variant", "cfg": cfg.id}));
+        }
         wf &= r0.wellformed && !r0.open;
     }
     ev.push(json!({"op": "variant", "what": "memory", "cfg": cfg.id, "same": same, "wellformed": wf}));
